@@ -572,3 +572,266 @@ Fixpoint m_runops (s : Z -> list (Z * Z)) (ops : list m_op) : list m_obs :=
   end.
 Definition ok_merkle (c : list m_op * list m_obs) : bool :=
   let '(ops, obs) := c in list_eqb m_obs_eqb (m_runops (fun _ => []) ops) obs.
+
+(* ------------------------------------------------------------------ *)
+(** * T-Digest (tdigest.py), parametric in the arithmetic *)
+
+(** The same definitions are instantiated with binary64 ([PrimFloat], the
+    arithmetic the implementation runs on; used by the correspondence check and
+    by the refutation witnesses) and with exact rationals (the [_partial]
+    theorems). *)
+Record arith := {
+  num : Type;
+  a_add : num -> num -> num;
+  a_sub : num -> num -> num;
+  a_mul : num -> num -> num;
+  a_div : num -> num -> num;
+  a_ofZ : Z -> num;                 (* float(int) *)
+  a_ltb : num -> num -> bool;
+  a_leb : num -> num -> bool;
+  a_eqb : num -> num -> bool;
+}.
+
+Section TDigest.
+Variable A : arith.
+Notation "x +! y" := (a_add A x y) (at level 50, left associativity).
+Notation "x -! y" := (a_sub A x y) (at level 50, left associativity).
+Notation "x *! y" := (a_mul A x y) (at level 40, left associativity).
+Notation "x /! y" := (a_div A x y) (at level 40, left associativity).
+Notation ofZ := (a_ofZ A).
+Notation T := (num A).
+(** [_max_size(q)] given [_total_count] (uses sqrt and pi: an input here). *)
+Variable msz : Z -> T -> T.
+Variable bufsize : Z.                (* int(compression * 2) *)
+
+Definition cent := (T * Z)%type.   (* mean, count *)
+Record tdig := {
+  td_cs : list cent; td_total : Z; td_min : option T; td_max : option T; td_buf : list T
+}.
+Definition td_empty : tdig := {| td_cs := []; td_total := 0; td_min := None; td_max := None; td_buf := [] |}.
+
+(** list.sort / sort(key=mean): stable insertion sort *)
+Fixpoint ins_by {X} (key : X -> T) (x : X) (l : list X) : list X :=
+  match l with
+  | [] => [x]
+  | y :: r => if a_ltb A (key x) (key y) then x :: l else y :: ins_by key x r
+  end.
+Definition sort_by {X} (key : X -> T) (l : list X) : list X :=
+  fold_left (fun acc x => ins_by key x acc) l [].
+
+(** [_Centroid.merge] *)
+Definition c_merge2 (a b : cent) : cent :=
+  let tot := snd a + snd b in
+  ((fst a *! ofZ (snd a) +! fst b *! ofZ (snd b)) /! ofZ tot, tot).
+
+(** the loop of [_compress]; [acc] is [compressed] reversed *)
+Fixpoint td_cloop (total : Z) (acc : list cent) (running : Z) (cs : list cent) : list cent :=
+  match cs with
+  | [] => rev acc
+  | c :: rest =>
+      match acc with
+      | [] => td_cloop total [c] (snd c) rest
+      | last :: acc' =>
+          let q := (ofZ running +! ofZ (snd c) /! ofZ 2) /! ofZ total in
+          if a_leb A (ofZ (snd last + snd c)) (msz total q)
+          then td_cloop total (c_merge2 last c :: acc') (running + snd c) rest
+          else td_cloop total (c :: acc) (running + snd c) rest
+      end
+  end.
+Definition td_compress (total : Z) (cs : list cent) : list cent :=
+  match cs with
+  | [] | [_] => cs
+  | _ => td_cloop total [] 0 (sort_by fst cs)
+  end.
+
+Definition td_flush (s : tdig) : tdig :=
+  match td_buf s with
+  | [] => s
+  | _ =>
+      let cs := td_cs s ++ map (fun v => (v, 1)) (sort_by (fun v => v) (td_buf s)) in
+      {| td_cs := td_compress (td_total s) cs; td_total := td_total s;
+         td_min := td_min s; td_max := td_max s; td_buf := [] |}
+  end.
+
+Definition opt_min (o : option T) (v : T) : option T :=
+  match o with None => Some v | Some m => if a_ltb A v m then Some v else Some m end.
+Definition opt_max (o : option T) (v : T) : option T :=
+  match o with None => Some v | Some m => if a_ltb A m v then Some v else Some m end.
+
+Definition td_add (s : tdig) (v : T) (c : Z) : tdig * bool :=
+  if c <? 0 then (s, true)
+  else if c =? 0 then (s, false)
+  else
+    let s1 := {| td_cs := td_cs s; td_total := td_total s + c; td_min := opt_min (td_min s) v;
+                 td_max := opt_max (td_max s) v; td_buf := td_buf s ++ repeat v (Z.to_nat c) |} in
+    (if bufsize <=? Z.of_nat (length (td_buf s1)) then td_flush s1 else s1, false).
+
+(** the centroid walk of [quantile] *)
+Fixpoint td_walk (mn mx : T) (total : Z) (target : T) (prev : option T) (running : T)
+    (cs : list cent) : T :=
+  match cs with
+  | [] => match prev with Some m => m | None => mn end     (* fallback: last centroid's mean *)
+  | (m, c) :: rest =>
+      let right := match rest with [] => ofZ total | _ => running +! ofZ c end in
+      if a_leb A running target && a_leb A target right then
+        match prev with
+        | None =>
+            if a_ltb A target (ofZ c /! ofZ 2)
+            then mn +! (target /! (ofZ c /! ofZ 2)) *! (m -! mn)
+            else m
+        | Some pm =>
+            match rest with
+            | [] =>
+                let remaining := ofZ total -! running in
+                if a_ltb A (running +! remaining /! ofZ 2) target
+                then m +! ((target -! running -! remaining /! ofZ 2) /! (remaining /! ofZ 2)) *! (mx -! m)
+                else m
+            | _ =>
+                let t := (target -! running) /! ofZ c in
+                if a_ltb A t (ofZ 1 /! ofZ 2)
+                then pm +! (m -! pm) *! (ofZ 1 /! ofZ 2 +! t)
+                else m
+            end
+        end
+      else td_walk mn mx total target (Some m) (running +! ofZ c) rest
+  end.
+
+(** [quantile(q)]: flushes; None = raised ValueError *)
+Definition td_quantile (s : tdig) (q : T) : tdig * option T :=
+  if negb (a_leb A (ofZ 0) q && a_leb A q (ofZ 1)) then (s, None)
+  else
+    let s1 := td_flush s in
+    match td_cs s1, td_min s1, td_max s1 with
+    | [], _, _ => (s1, None)
+    | _, Some mn, Some mx =>
+        if a_eqb A q (ofZ 0) then (s1, Some mn)
+        else if a_eqb A q (ofZ 1) then (s1, Some mx)
+        else (s1, Some (td_walk mn mx (td_total s1) (q *! ofZ (td_total s1)) None (ofZ 0) (td_cs s1)))
+    | _, _, _ => (s1, None)
+    end.
+
+(** [merge(other)]: flushes BOTH digests; returns (self', other') *)
+Definition td_merge (a b : tdig) : tdig * tdig :=
+  let a1 := td_flush a in
+  let b1 := td_flush b in
+  let mn := match td_min b1 with Some v => opt_min (td_min a1) v | None => td_min a1 end in
+  let mx := match td_max b1 with Some v => opt_max (td_max a1) v | None => td_max a1 end in
+  let tot := td_total a1 + td_total b1 in
+  ({| td_cs := td_compress tot (td_cs a1 ++ td_cs b1); td_total := tot; td_min := mn; td_max := mx; td_buf := [] |}, b1).
+
+Inductive td_op :=
+| DAdd (slot : Z) (v : T) (c : Z)
+| DQuantile (slot : Z) (q : T)
+| DMerge (dst src : Z).
+(** observation: centroids, total, min, max, buffer, raised, quantile value *)
+Definition td_obs := (list cent * Z * option T * option T * list T * bool * option T)%type.
+Definition td_view (s : tdig) (raised : bool) (v : option T) : td_obs :=
+  (td_cs s, td_total s, td_min s, td_max s, td_buf s, raised, v).
+Definition td_step (s : Z -> tdig) (o : td_op) : (Z -> tdig) * td_obs :=
+  match o with
+  | DAdd sl v c => let '(st, r) := td_add (s sl) v c in (upd s sl st, td_view st r None)
+  | DQuantile sl q =>
+      let '(st, v) := td_quantile (s sl) q in
+      (upd s sl st, td_view st (match v with None => true | _ => false end) v)
+  | DMerge d sr =>
+      if d =? sr then
+        (* merge(self): both aliases are the same object *)
+        let '(a', _) := td_merge (s d) (s d) in (upd s d a', td_view a' false None)
+      else
+        let '(a', b') := td_merge (s d) (s sr) in (upd (upd s sr b') d a', td_view a' false None)
+  end.
+Fixpoint td_runops (s : Z -> tdig) (ops : list td_op) : list td_obs :=
+  match ops with
+  | [] => []
+  | o :: r => let '(s', ob) := td_step s o in ob :: td_runops s' r
+  end.
+End TDigest.
+Arguments td_cs {A}. Arguments td_total {A}. Arguments td_min {A}. Arguments td_max {A}. Arguments td_buf {A}.
+
+(** ** binary64 instance *)
+From Coq Require Import Floats.
+Definition f_ofZ (z : Z) : float :=
+  if z <? 0 then PrimFloat.opp (PrimFloat.of_uint63 (Uint63.of_Z (- z)))
+  else PrimFloat.of_uint63 (Uint63.of_Z z).
+Definition FA : arith := {|
+  num := float; a_add := PrimFloat.add; a_sub := PrimFloat.sub; a_mul := PrimFloat.mul;
+  a_div := PrimFloat.div; a_ofZ := f_ofZ; a_ltb := PrimFloat.ltb; a_leb := PrimFloat.leb;
+  a_eqb := PrimFloat.eqb |}.
+
+(** [_max_size]: total*4 / (compression * pi * sqrt(q*(1-q))), q clamped to
+    [0.0001, 0.9999] by max(0.0001, min(0.9999, q)). *)
+Definition f_msz (comp : float) (total : Z) (q : float) : float :=
+  let hi := 0x1.fff2e48e8a71ep-1%float in
+  let lo := 0x1.a36e2eb1c432dp-14%float in
+  let q1 := if PrimFloat.ltb q hi then q else hi in
+  let q2 := if PrimFloat.ltb lo q1 then q1 else lo in
+  PrimFloat.div (f_ofZ (total * 4))
+    (PrimFloat.mul (PrimFloat.mul comp 0x1.921fb54442d18p+1%float)
+       (PrimFloat.sqrt (PrimFloat.mul q2 (PrimFloat.sub 1%float q2)))).
+
+Definition feqb (a b : float) : bool :=
+  PrimFloat.eqb a b || (negb (PrimFloat.eqb a a) && negb (PrimFloat.eqb b b)).
+Definition fopt_eqb := option_eqb feqb.
+Definition fcent_eqb (a b : float * Z) : bool := feqb (fst a) (fst b) && (snd a =? snd b).
+Definition ftd_obs_eqb (a b : td_obs FA) : bool :=
+  let '(a1, a2, a3, a4, a5, a6, a7) := a in let '(b1, b2, b3, b4, b5, b6, b7) := b in
+  list_eqb fcent_eqb a1 b1 && (a2 =? b2) && fopt_eqb a3 b3 && fopt_eqb a4 b4 &&
+  list_eqb feqb a5 b5 && Bool.eqb a6 b6 && fopt_eqb a7 b7.
+(** case = (compression, buffer size, schedule, observations) *)
+Definition ok_tdigest (c : float * Z * list (td_op FA) * list (td_obs FA)) : bool :=
+  let '(comp, bs, ops, obs) := c in
+  list_eqb ftd_obs_eqb (td_runops FA (f_msz comp) bs (fun _ => td_empty FA) ops) obs.
+
+(* ------------------------------------------------------------------ *)
+(** * Collector entities (components/sketching): per-handler trace replay *)
+
+(** [handle_event]: value = value_extractor(event); if value is not None the
+    sketch gets add(value[, count=weight]); events_processed += 1; returns [].
+    An input is (extracted value, extracted weight or None when the collector
+    has no weight extractor). *)
+Definition opt_weight (w : option Z) : Z := match w with Some c => c | None => 1 end.
+
+Fixpoint col_topk_run (k : Z) (st : topk) (n : Z) (tr : list (option Z * option Z))
+    : list (list tk_entry * Z * Z) :=
+  match tr with
+  | [] => []
+  | (v, w) :: r =>
+      let st' := match v with None => st | Some x => fst (tk_add k st x (opt_weight w)) end in
+      (t_cnt st', t_total st', n + 1) :: col_topk_run k st' (n + 1) r
+  end.
+
+Fixpoint col_cms_run (hc : Z -> Z -> Z) (w d : Z) (st : cms) (n : Z) (tr : list (option Z * option Z))
+    : list (list (list Z) * Z * Z) :=
+  match tr with
+  | [] => []
+  | (v, wt) :: r =>
+      let st' := match v with None => st | Some x => fst (c_add hc w d st x (opt_weight wt)) end in
+      (map (fun r => map (fun col => c_cnt st' r col) (zrange w)) (zrange d), c_total st', n + 1)
+        :: col_cms_run hc w d st' (n + 1) r
+  end.
+
+Fixpoint col_td_run (comp : float) (bs : Z) (st : tdig FA) (n : Z) (tr : list (option float))
+    : list (td_obs FA * Z) :=
+  match tr with
+  | [] => []
+  | v :: r =>
+      let st' := match v with None => st | Some x => fst (td_add FA (f_msz comp) bs st x 1) end in
+      (td_view FA st' false None, n + 1) :: col_td_run comp bs st' (n + 1) r
+  end.
+
+Definition col_tk_obs_eqb (a b : list tk_entry * Z * Z) : bool :=
+  let '(a1, a2, a3) := a in let '(b1, b2, b3) := b in list_eqb entry_eqb a1 b1 && (a2 =? b2) && (a3 =? b3).
+Definition col_cms_obs_eqb (a b : list (list Z) * Z * Z) : bool :=
+  let '(a1, a2, a3) := a in let '(b1, b2, b3) := b in list_eqb (list_eqb Z.eqb) a1 b1 && (a2 =? b2) && (a3 =? b3).
+Definition col_td_obs_eqb (a b : td_obs FA * Z) : bool := ftd_obs_eqb (fst a) (fst b) && (snd a =? snd b).
+
+(** case = ((k, topk trace, topk observations), (width, depth, table, cms trace, cms observations),
+           (compression, buffer size, tdigest trace, tdigest observations)) *)
+Definition ok_collectors
+  (c : (Z * list (option Z * option Z) * list (list tk_entry * Z * Z)) *
+       (Z * Z * list (Z * Z * Z) * list (option Z * option Z) * list (list (list Z) * Z * Z)) *
+       (float * Z * list (option float) * list (td_obs FA * Z))) : bool :=
+  let '((k, ttr, tobs), (w, d, t, ctr, cobs), (comp, bs, dtr, dobs)) := c in
+  list_eqb col_tk_obs_eqb (col_topk_run k topk_empty 0 ttr) tobs &&
+  list_eqb col_cms_obs_eqb (col_cms_run (tbl1 t) w d cms_empty 0 ctr) cobs &&
+  list_eqb col_td_obs_eqb (col_td_run comp bs (td_empty FA) 0 dtr) dobs.
